@@ -54,6 +54,9 @@ RULES = {
     'R-SYMTARGET': extra_rules.r_symtarget,
     'R-ROOTSCAN': extra_rules.r_rootscan,
     'R-LEAFGUARD': extra_rules.r_leafguard,
+    'R-OPTSIDE': driver_rules.r_optside,
+    'R-PAIRUSE': gram_rules.r_pairuse,
+    'R-PERTREE': driver_rules.r_pertree,
 }
 
 
@@ -119,8 +122,10 @@ PROPS = {
                        'independent decoder recovers the tree, tab-stop widths, terminals output text.',
     },
     'C03': {
-        'rules': ['R-FRAMEFILE', 'R-DISPATCH', 'R-ENC', 'R-NONE', 'R-VOCAB', 'R-AUTOMATON', 'R-OPTKEY', 'R-READER-STATE', 'R-DIRMODE', 'R-OPENMODE', 'R-SIBLING'],
-        'filter': {'R-OPENMODE': site('transform.'),
+        'rules': ['R-FRAMEFILE', 'R-DISPATCH', 'R-ENC', 'R-NONE', 'R-VOCAB', 'R-AUTOMATON', 'R-OPTKEY', 'R-READER-STATE', 'R-DIRMODE', 'R-OPENMODE', 'R-SIBLING', 'R-OPTSIDE', 'R-PERTREE'],
+        'filter': {'R-PERTREE': site('transform.run'),
+                   'R-OPTSIDE': site('transform.run'),
+                   'R-OPENMODE': site('transform.'),
                    'R-SIBLING': rule('R-SIBLING/GFSPLIT', 'R-SIBLING/PARENS'),
                    'R-AUTOMATON': rule('R-AUTOMATON/A4', 'R-AUTOMATON/A3', 'R-AUTOMATON/FIELDS'),
                    'R-OPTKEY': rule('R-OPTKEY/K3')},
@@ -175,7 +180,7 @@ PROPS = {
                        'every rule; ordered accessors used. Does NOT decide: that the linearization reproduces the blocks.',
     },
     'C07': {
-        'rules': ['R-ARITY', 'R-ARGPOS', 'R-INVERSEMAP', 'R-MEMO', 'R-ACCUM'],
+        'rules': ['R-ARITY', 'R-ARGPOS', 'R-INVERSEMAP', 'R-MEMO', 'R-ACCUM', 'R-PAIRUSE'],
         'filter': {'R-MEMO': site('grammar', 'trees'),
                    'R-ACCUM': site('grammar.binarize'),
                    'R-ARGPOS': site('grammar.linsub')},
@@ -194,8 +199,9 @@ PROPS = {
                        'Does NOT decide: the numeric balance equation.',
     },
     'C09': {
-        'rules': ['R-MUSTUSE', 'R-ENC', 'R-GUARD', 'R-ACCUM', 'R-IDCOUNTER', 'R-SORTEDPOS', 'R-OPTKEY', 'R-STATE', 'R-LOOPSTRIP', 'R-OPENMODE', 'R-DISCONT'],
-        'filter': {'R-OPENMODE': site('grammaroutput.', 'grammar.'),
+        'rules': ['R-MUSTUSE', 'R-ENC', 'R-GUARD', 'R-ACCUM', 'R-IDCOUNTER', 'R-SORTEDPOS', 'R-OPTKEY', 'R-STATE', 'R-LOOPSTRIP', 'R-OPENMODE', 'R-DISCONT', 'R-OPTSIDE'],
+        'filter': {'R-OPTSIDE': site('grammar.run'),
+                   'R-OPENMODE': site('grammaroutput.', 'grammar.'),
                    'R-DISCONT': site('grammaranalysis.'),
                    'R-GUARD': rule('R-GUARD/LOPAR'),
                    'R-ACCUM': either(rule('R-ACCUM/PRINT'), site('grammarinput.', 'grammaroutput.')),
@@ -209,8 +215,10 @@ PROPS = {
                        'tested literally and works on a copy. Does NOT decide: textual round trip of RCG/PMCFG.',
     },
     'C10': {
-        'rules': ['R-GUARD', 'R-ORDERED', 'R-STATE', 'R-FRAME', 'R-OPENMODE', 'R-ENC', 'R-LEAFGUARD'],
-        'filter': {'R-LEAFGUARD': site('transitions.'),
+        'rules': ['R-GUARD', 'R-ORDERED', 'R-STATE', 'R-FRAME', 'R-OPENMODE', 'R-ENC', 'R-LEAFGUARD', 'R-OPTSIDE', 'R-PERTREE'],
+        'filter': {'R-PERTREE': site('transitions.run'),
+                   'R-OPTSIDE': site('transitions.run'),
+                   'R-LEAFGUARD': site('transitions.'),
                    'R-OPENMODE': site('transitions.', 'transitionoutput.'),
                    'R-ENC': site('transitions.', 'transitionoutput.'),
                    'R-GUARD': rule('R-GUARD/GAP', 'R-GUARD/TOPDOWN', 'R-GUARD/PLAIN'),
@@ -290,8 +298,10 @@ PROPS = {
                        'and guards; presets and rejections; no state between calls. What remains is table content.',
     },
     'C16': {
-        'rules': ['R-DISCONT', 'R-ACCUM', 'R-FRAME', 'R-DISCOORDER', 'R-GUARD', 'R-ORDERED', 'R-REPORT', 'R-STATE', 'R-MEMO', 'R-LEAFGUARD'],
-        'filter': {'R-LEAFGUARD': site('treeanalysis.', 'trees.terminal'),
+        'rules': ['R-DISCONT', 'R-ACCUM', 'R-FRAME', 'R-DISCOORDER', 'R-GUARD', 'R-ORDERED', 'R-REPORT', 'R-STATE', 'R-MEMO', 'R-LEAFGUARD', 'R-OPTSIDE', 'R-PERTREE'],
+        'filter': {'R-PERTREE': site('treeanalysis.run'),
+                   'R-OPTSIDE': site('treeanalysis.run'),
+                   'R-LEAFGUARD': site('treeanalysis.', 'trees.terminal'),
                    'R-STATE': both(rule('R-STATE/G1'), site('treeanalysis', 'trees')),
                    'R-MEMO': site('treeanalysis', 'trees'),
                    'R-ACCUM': site('treeanalysis.'),
@@ -305,8 +315,9 @@ PROPS = {
                        'node as such only for tokens. Does NOT decide: numeric equality with the set-based definition.',
     },
     'C17': {
-        'rules': ['R-SPLITARITH', 'R-FRAMEFILE', 'R-ENC', 'R-OPENMODE'],
-        'filter': {'R-ENC': site('transform.run'), 'R-OPENMODE': site('transform.')},
+        'rules': ['R-SPLITARITH', 'R-FRAMEFILE', 'R-ENC', 'R-OPENMODE', 'R-OPTSIDE'],
+        'filter': {'R-OPTSIDE': site('transform.run'),
+                   'R-ENC': site('transform.run'), 'R-OPENMODE': site('transform.')},
         'explanation': 'Decides: every part size is an exact non-negative integer in an abstract domain '
                        '{NonNegInt, Int, InexactInt, Float, Str} (floating-point percentages and unvalidated signs are '
                        'rejected), the remainder goes to rest or to parts.index(max(parts)), bad specifications raise '
@@ -315,8 +326,9 @@ PROPS = {
                        'Does NOT decide: the sum arithmetic itself.',
     },
     'C18': {
-        'rules': ['R-STATE', 'R-READER-STATE', 'R-ARITY', 'R-FRAME', 'R-ACCUM', 'R-MEMO', 'R-FRAMEFILE'],
-        'filter': {'R-ACCUM': either(rule('R-ACCUM/TASK', 'R-ACCUM/EXTRACT'), site('grammar.extract', 'grammar.binarize')),
+        'rules': ['R-STATE', 'R-READER-STATE', 'R-ARITY', 'R-FRAME', 'R-ACCUM', 'R-MEMO', 'R-FRAMEFILE', 'R-PERTREE'],
+        'filter': {'R-PERTREE': site('transform.run', 'grammar.run', 'transitions.run', 'treeanalysis.run'),
+                   'R-ACCUM': either(rule('R-ACCUM/TASK', 'R-ACCUM/EXTRACT'), site('grammar.extract', 'grammar.binarize')),
                    'R-FRAMEFILE': rule('R-FRAMEFILE/ONCE'),
                    'R-ARITY': rule('R-ARITY/UNIQUE'), 'R-FRAME': rule('R-FRAME/PURE')},
         'explanation': 'Decides: the inventory of state outliving a call is exactly the two terminal-file caches (no '
